@@ -311,6 +311,10 @@ func (r *Raft) onSnapshotTaken(t snapTaken) {
 		}
 		if nowCompact > r.log.PrevIndex() {
 			_ = r.compactLog(nowCompact)
+			if r.state == Leader && r.ldr.removeLTE < r.log.PrevIndex() {
+				// log views handed to replications start at removeLTE
+				r.ldr.removeLTE = r.log.PrevIndex()
+			}
 		}
 		if canCompact > nowCompact {
 			// notify repls with new logView
